@@ -445,7 +445,8 @@ pub fn finish(ctx: &Ctx, st: &Stats, fin: Finish, replay: ReplayFn) -> i32 {
         println!("KNOWN-FINDING: property={} key={} {} [{}]", ctx.id, v.key, k.text, v.msg);
     }
 
-    if !vacuous.is_empty() {
+    // a vacuity alarm never hides a violation: it only invalidates a silent run
+    if !vacuous.is_empty() && unknown.is_empty() {
         println!(
             "MACHINERY-FAILURE: vacuous run, counters that must be non-zero are zero: {:?}",
             vacuous
